@@ -308,6 +308,10 @@ impl ShmWrite for ShmWriter {
             };
             generation.store(gen, atomic::Ordering::Release);
 
+            // The Release store above only orders what precedes it. Keep the record update below
+            // from becoming visible before the odd generation number does.
+            atomic::fence(atomic::Ordering::Release);
+
             #[cfg(clock_bound_verif)]
             crate::verif_shim::data_write(self.ceb, ceb);
             self.ceb.write(*ceb);
